@@ -19,6 +19,15 @@ BASE_ASSUME = [
 ]
 
 PROPS = {
+    "C20": {
+        "level": "exploration",
+        "assumptions": BASE_ASSUME + ["the limiter's clock is injected through its nowFunc field; arrival times are non-decreasing"],
+        "parts": [
+            {"engine": "log", "test": "TestVF_C20", "quick": (2, 10000), "thorough": (16, 100000)},
+            {"engine": "log", "test": "TestVF_C20_Periodic", "quick": (1, 2000), "thorough": (8, 20000)},
+            {"engine": "log", "test": "TestVF_C20_Exhaustive", "kind": "plain", "tiers": ["thorough"]},
+        ],
+    },
     "C19": {
         "level": "exploration",
         "assumptions": BASE_ASSUME + ["every Move is preceded by a write into the current slot, as in both callers"],
